@@ -21,7 +21,7 @@ ARRIVALS = ['identity','reversed','interleave','rotate']
 
 def _classify(v): return v['what'].split(':')[0][:100]
 
-@obligation('C01','emulated_configs', bounds={'quick':"13 programs x experiment seed {1,7} x maxtasksperchunk in [0,4] (z3 int through the real ChunkTasks) x 4 arrival orders of worker outputs; second construction+run equals the first",
+@obligation('C01','emulated_configs', bounds={'quick':"14 programs x experiment seed {1,7} x maxtasksperchunk in [0,4] (z3 int through the real ChunkTasks) x 4 arrival orders of worker outputs; second construction+run equals the first",
                                               'thorough':"experiment seeds {1,7,13,42}; maxtasksperchunk in [0,7]"},
             functions=FUNCS, params=lambda tier: [dict(prog=p, seed=s) for p in exp.PROGRAMS for s in ((1,7) if tier == 'quick' else (1,7,13,42))], classify=_classify, budget={'quick':60,'thorough':900})
 def emulated_configs(sym, prog, seed):
